@@ -41,6 +41,10 @@ def units(tier):
         for lazy in (False, True):
             us.append(("insn[%s,%s]" % (m, lazy), "unit_compile_insn", dict(mnemonic=m, lazy=lazy)))
     us.append(("rac", "unit_rac", {}))
+    # the address a branch names is what Symbol._resolve binds the name to (contracts/symbols_c.py, shared with C03 / C11)
+    for sp in (False, True):
+        for dn in (False, True):
+            us.append(("symbol-resolve[%s,%s]" % (sp, dn), "unit_symbol_resolve", dict(speculative=sp, digit_name=dn)))
     # a displacement inside a '.repeat' body is right only if every copy is compiled at its own address (loop contract shared with C16 / C02 / C06)
     us.append(("repeat", "unit_repeat", {}))
     # the displacement 'target - rel_address' of a lazy target is LinearPolynomial arithmetic, awaited when the word is written: the polynomial's
@@ -50,6 +54,7 @@ def units(tier):
             us.append((name, fn, kw))
     # whole programs: the statement holds wherever a statement stands (repeat body, included / linked file, any block) - contracts/structure.py
     us += structure.units()
+    us += structure.expr_units()
     return us
 
 
@@ -85,6 +90,9 @@ RAC_PROGS = [
                                         (".repeat 2 { add #2, T }", 12, [("rel", 4, "T"), ("rel", 10, "T")]), (".repeat 2 { jmp @F }", 8, [("rel", 2, "F"), ("rel", 6, "F")]), NOP, ("L", "F"), NOP]}),
     dict(main="m.mac", link=0o4000, files={"m.mac": [("L", "T"), NOP, (".repeat 4 { br T }", 8, [("br", 0, "T"), ("br", 2, "T"), ("br", 4, "T"), ("br", 6, "T")]), (".repeat 3 { mov T, 100 }", 18, [("rel", 2, "T"), ("rel", 4, "=64"), ("rel", 8, "T"), ("rel", 10, "=64"), ("rel", 14, "T"), ("rel", 16, "=64")]),
                                                      (".repeat 2 { .repeat 2 { bne T } }", 8, [("br", 0, "T"), ("br", 2, "T"), ("br", 4, "T"), ("br", 6, "T")])]}),
+    # both spellings of a local label in one block ('3:' and '3$:' are different labels): a forward reference finds its own spelling
+    dict(main="m.mac", files={"m.mac": [("L", "T"), ("L", "3"), ("L", "4"), NOP, ("br 3$", 2, [("br", 0, "3$")]), ("jmp 3$", 4, [("rel", 2, "3$")]), ("mov #1, 4$", 6, [("rel", 4, "4$")]), NOP, ("L", "4$"), NOP, ("L", "3$"), NOP,
+                                        ("sob r1, 3$", 2, [("sob", 0, "3$")]), ("br 3", 2, [("br", 0, "3")]), ("mov @4, r0", 4, [("rel", 2, "=4")])]}),
     # wrap-around: absolute targets far from the code, high link address
     dict(main="m.mac", link=0o177700, files={"m.mac": [NOP, ("mov 10, r0", 4, [("rel", 2, "=8")]), ("jmp 177776", 4, [("rel", 2, "=65534")]), ("mov #1, 100", 6, [("rel", 4, "=64")])]}),
     dict(main="m.mac", link=0o10, files={"m.mac": [NOP, ("mov 177770, r0", 4, [("rel", 2, "=65528")]), ("clr @0", 4, [("rel", 2, "=0")])]}),
@@ -123,7 +131,7 @@ def _rac_target(expr, labels, here):
     if expr.startswith("="):
         return int(expr[1:])
     import re
-    m = re.fullmatch(r"([A-Za-z0-9.]+)([+-]\d+)?", expr)
+    m = re.fullmatch(r"([A-Za-z0-9.$]+)([+-]\d+)?", expr)
     b = here if m.group(1) == "." else labels[m.group(1)]
     return (b + int(m.group(2) or 0)) % 65536
 
@@ -191,6 +199,11 @@ def unit_repeat(eng):
     return meta_c.unit_repeat(eng)
 
 
+def unit_symbol_resolve(eng, speculative, digit_name):
+    from contracts import c03
+    return c03.unit_resolve(eng, speculative=speculative, digit_name=digit_name)
+
+
 def canary(eng):
     def run(eng):
         eng.I = {}
@@ -208,7 +221,7 @@ def replay(o, tree):
         return r_
     cfg = o.get("cfg") or {}
     w = o.get("witness") or {}
-    if str(cfg.get("kind", "")).startswith("poly") or cfg.get("kind") in ("rac", "repeat") or o.get("unit", "").startswith(".repeat"):
+    if str(cfg.get("kind", "")).startswith("poly") or cfg.get("kind") in ("rac", "repeat") or o.get("unit", "").startswith((".repeat", "Symbol._resolve")):
         # program level first: the include / alias programs go through the same arithmetic
         r = unit_rac(None, tree)
         if r["bad"]:
